@@ -5,7 +5,9 @@ pub mod common;
 pub mod c01;
 pub mod c02;
 pub mod c03;
+pub mod c06;
 pub mod c18;
+pub mod c19;
 
 pub struct Prop {
     pub id: &'static str,
@@ -18,7 +20,9 @@ pub fn all() -> Vec<Prop> {
         Prop { id: "C01", level: "exploration", run: c01::run },
         Prop { id: "C02", level: "exploration", run: c02::run },
         Prop { id: "C03", level: "exploration", run: c03::run },
+        Prop { id: "C06", level: "exploration", run: c06::run },
         Prop { id: "C18", level: "exploration", run: c18::run },
+        Prop { id: "C19", level: "exploration", run: c19::run },
     ]
 }
 
